@@ -170,4 +170,21 @@ pub fn long_symbol_report() {
         }
     }
     println!("max-symbol-bytes histogram: {:?}", hist);
+    let mut hist = [0u32; 24];
+    for i in 0..100u64 {
+        let mut t = Tape::random(i);
+        let b = crate::props::common::gen_long_marker(&mut t);
+        let m = b.max_symbol_bytes().min(23);
+        hist[m as usize] += 1;
+        if i < 3 {
+            println!("marker: out={} payload={} max_symbol_bytes={}", b.expect.len(), b.payload.len(), b.max_symbol_bytes());
+            // liblzma must accept a marker with a long length
+            if b.props.lc + b.props.lp <= 4 {
+                let mut f = crate::refmodel::container::lzma_header(b.props, 0x0080_0000, Some(u64::MAX));
+                f.extend_from_slice(&b.payload);
+                println!("  liblzma: {:?}", lzma::decompress(&f).map(|o| o == b.expect));
+            }
+        }
+    }
+    println!("long-marker max-symbol-bytes histogram: {:?}", hist);
 }
